@@ -47,6 +47,11 @@ def run_plot(toks, state):
     from . import real
     a = json.loads(real.unhex6(toks[2]))
     entry = toks[1]
+    if a.get("as_array"):
+        import numpy as np
+        a["xs"] = np.array(a["xs"], dtype=float)
+        a["ys"] = np.array(a["ys"], dtype=float)
+        before_xy = (a["xs"].copy(), a["ys"].copy())
     # figures are closed by the harness only at the start of a block and after a show_* call (getFig=True hands the figure to the
     # caller); a save_* call has to leave no figure behind by itself - a later plot of the same block would otherwise show it
     if not state.get("plot_started"):
@@ -121,6 +126,8 @@ def run_plot(toks, state):
                 raise KeyError(entry)
         d = figdesc(plt, ret)
         d["open_figures_after"] = len(plt.get_fignums())
+        if a.get("as_array"):
+            d["caller_arrays_unchanged"] = bool((a["xs"] == before_xy[0]).all() and (a["ys"] == before_xy[1]).all())
         if saved:
             d["at_save"] = at_save[-1] if at_save else None
             d["n_savefig_calls"] = len(at_save)
